@@ -74,6 +74,7 @@ func c34NewWorld() *c34World {
 	w.actors = append(w.actors, preps[0])
 	w.tgts = append(w.tgts, preps...)
 	w.tgts = append(w.tgts, users[99])
+	w.tgts = append(w.tgts, w.actors[0:5]...) // targets 8..12: the five fresh accounts, which may register as P-Reps later
 	w.all = append(w.all, w.actors[0:5]...)
 	w.all = append(w.all, preps...)
 	w.all = append(w.all, users...)
@@ -324,6 +325,15 @@ func (w *c34World) mkTx(toks []string) (icsim.Transaction, bool) {
 			return nil, false
 		}
 		return w.sim.ClaimIScore(a), true
+	case "regprep":
+		if len(toks) != 3 {
+			return nil, false
+		}
+		i, err := strconv.Atoi(toks[1])
+		if err != nil || i < 0 || i >= 5 || toks[2] != icmodule.BigIntRegPRepFee.String() {
+			return nil, false
+		}
+		return w.sim.RegisterPRep(w.actors[i], icsim.VerifC34DummyPRepInfo(500+i)), true
 	}
 	return nil, false
 }
@@ -378,6 +388,7 @@ func c34Case(g *Gen, nOps int) {
 	}
 	one := big.NewInt(1)
 	focus := g.Intn(5) // one staker acts in bursts so that unstake slots fill up
+	cand := g.Intn(5)  // one fresh account collects delegations and registers as a P-Rep later in the case
 	for n := 0; n < nOps; n++ {
 		i := g.Intn(c34NActors)
 		burst := g.Intn(3) == 0
@@ -393,6 +404,9 @@ func c34Case(g *Gen, nOps int) {
 		maxStake := new(big.Int).Add(ac.bal, new(big.Int).Add(ac.stake, unstaking))
 		var line string
 		kind := g.Pick(0, 0, 0, 1, 1, 2, 2, 3, 4, 5, 5, 5, 6)
+		if n > nOps/3 && g.Intn(6) == 0 {
+			kind = 7
+		}
 		sub := g.Intn(9)
 		if burst && g.Intn(3) != 0 {
 			kind, sub = 0, g.Pick(6, 6, 6, 5, 7)
@@ -447,6 +461,11 @@ func c34Case(g *Gen, nOps int) {
 			rem := new(big.Int).Set(avail)
 			for j := 0; j < k; j++ {
 				t := g.Intn(8)
+				if g.Intn(3) == 0 {
+					t = 7 + g.Intn(6) // not (yet) P-Reps: users[99] and the five fresh accounts
+				} else if g.Intn(2) == 0 {
+					t = 8 + cand
+				}
 				if used[t] {
 					continue
 				}
@@ -539,6 +558,12 @@ func c34Case(g *Gen, nOps int) {
 				v = c34Amt(g, ac.bal)
 			}
 			line = fmt.Sprintf("xfer %d %d %s", i, j, v)
+		case 7: // one of the fresh accounts (which may already have received delegations) registers as a P-Rep
+			who := cand
+			if g.Intn(4) == 0 {
+				who = g.Intn(5)
+			}
+			line = fmt.Sprintf("regprep %d %s", who, icmodule.BigIntRegPRepFee)
 		case 6: // two setStake transactions of one account in the same block (slots sharing an expiry height)
 			free := new(big.Int).Sub(ac.stake, using)
 			if free.Sign() <= 0 {
@@ -682,7 +707,7 @@ func (r *c34Runner) Step(toks []string, o *Oracle) string {
 		}
 		o.Count("stake2")
 		return r.w.digestOks(oks)
-	case "stake", "deleg", "bond", "xfer", "claim":
+	case "stake", "deleg", "bond", "xfer", "claim", "regprep":
 		if r.w == nil {
 			return "bad-op"
 		}
@@ -765,6 +790,13 @@ func (r *c34Runner) checkBlock(o *Oracle, before map[string]*c34Acct, touched ..
 	}
 	now := map[string]*c34Acct{}
 	defer func() { r.last = now }()
+	activeTgt := make([]bool, len(w.tgts))
+	for t, ta := range w.tgts {
+		if p := w.sim.GetPRepByOwner(ta); p != nil && p.IsActive() {
+			activeTgt[t] = true
+		}
+	}
+	isActive := func(t int) bool { return t >= 0 && t < len(activeTgt) && activeTgt[t] }
 	for _, a := range w.all {
 		ac := w.acct(a)
 		now[a.String()] = ac
@@ -803,13 +835,13 @@ func (r *c34Runner) checkBlock(o *Oracle, before map[string]*c34Acct, touched ..
 		ld, lb, lu := new(big.Int), new(big.Int), new(big.Int)
 		for _, d := range ac.delegs {
 			ld.Add(ld, d.amt)
-			if d.to < c34NPreps {
+			if isActive(d.to) {
 				sumDeleg.Add(sumDeleg, d.amt)
 			}
 		}
 		for _, b := range ac.bonds {
 			lb.Add(lb, b.amt)
-			if b.to < c34NPreps {
+			if isActive(b.to) {
 				sumBond.Add(sumBond, b.amt)
 			}
 		}
